@@ -152,6 +152,61 @@ func runC17(p *Prog, r *Report) {
 		return
 	}
 	r.Fn(FName(c.cleanup))
+	// the sweep is unconditional: every return of the clean-up routine has passed the test of its sweep loop (a
+	// shortcut that skips the sweep, e.g. for a counter that "has counted nothing", lets old buckets survive in
+	// every object for which the shortcut's condition is stale, such as clones)
+	{
+		var hdr *ssa.BasicBlock
+		for _, b := range c.cleanup.Blocks {
+			for _, in := range b.Instrs {
+				if st, ok := in.(*ssa.Store); ok && c.isElemAddr(st.Addr) {
+					loop := loopBlocks(st.Block())
+					for lb := range loop {
+						for _, pr := range lb.Preds {
+							if !loop[pr] {
+								hdr = lb
+							}
+						}
+					}
+				}
+			}
+		}
+		if hdr == nil {
+			r.Fail("C17.R2", "memmetrics.(*RollingCounter)."+c.cleanup.Name()+": sweeps in a loop", p.FuncPos(c.cleanup), "the clean-up routine zeroes a bucket outside any loop")
+		} else {
+			through := func(in ssa.Instruction) bool { return in.Block() == hdr }
+			var bad *ssa.Return
+			for _, ret := range Returns(c.cleanup) {
+				if ReachableAvoiding(c.cleanup, nil, ret, through, nil) {
+					bad = ret
+				}
+			}
+			r.Paths++
+			r.Check(bad == nil, "C17.R2", "memmetrics.(*RollingCounter)."+c.cleanup.Name()+": the sweep is never skipped", p.FuncPos(c.cleanup), "every return has passed the sweep loop's test",
+				"the clean-up routine can return without entering its sweep"+posOf(p, bad)+": buckets older than the window are still counted (old events never age out of objects for which the shortcut's condition does not reflect their contents, e.g. clones)")
+		}
+	}
+	// the constructor keeps the resolution it validated: the window is N x the resolution the caller asked for
+	{
+		nRes := 0
+		for _, st := range p.StoresToField(c.typ, c.resField) {
+			fa, _ := st.Addr.(*ssa.FieldAddr)
+			if fa == nil {
+				continue
+			}
+			if _, fresh := fa.X.(*ssa.Alloc); !fresh {
+				continue
+			}
+			if st.Parent().Name() == "Clone" || recvNamed(st.Parent()) == c.typ {
+				continue // copies of an existing counter's resolution
+			}
+			nRes++
+			_, isParam := stripConv(st.Val).(*ssa.Parameter)
+			r.Check(isParam, "C17.R1", "memmetrics.RollingCounter: the constructor stores the requested resolution unchanged, in "+FName(st.Parent()), p.InstrPos(st), "resolution := parameter",
+				"the stored resolution is "+truncate(BuildExpr(p, st.Val, nil).String(), 100)+", not the (validated) parameter: for resolutions the constructor accepts but this expression changes, the window is shorter/longer than N x resolution")
+		}
+		r.Floor("C17.R1", nRes, 1, "constructor stores of the resolution")
+	}
 	var zero *ssa.Store
 	for _, b := range c.cleanup.Blocks {
 		for _, in := range b.Instrs {
